@@ -439,6 +439,14 @@ def build_catalogue():
     op("mbxml.from_bytes_every_document_type", "parse")(lambda: ((lambda: ()), (lambda: [
         (i, _outcome(lambda i=i: [(type(x).__name__, x.id.name, [(p_.token_id, p_.name) for p_ in x.parts], MBXML.as_bytes(x).hex()) for x in MBXML.from_bytes(bytes([i, 0x06, 0x22, 0x04, 0x24, 0x68, 0xAC, 0xE0]))])) for i in range(0x00, 0x30)])))
     op("tms.roundtrip", "parse")(lambda: ((lambda: (HEX("000ea00000840d000a00540045005300"),)), (lambda d: _tms(TextMessagingService, d))))
+    # parsed objects handed to the caller (who serialises them, twice, and then writes into them - run_op does): a second parse of the same
+    # octets must not notice (objects shared between parses: cached headers, pooled elements)
+    for tname, thex in (("text_without_optional_headers", "000a6000" + "ahoj".encode("utf-16-le").hex()), ("text_with_headers", "000ea00000840d000a00540045005300"),
+                        ("acknowledgement", "0003bf0001"), ("service_availability", "00021000")):
+        op(f"tms.from_bytes_{tname}", "parse")(lambda thex=thex: ((lambda: (HEX(thex),)), (lambda d: _outcome(lambda: TextMessagingService.from_bytes(d)))))
+    for aname, ahex in (("device_registration", "0010F5000231310939393939393939393900"), ("acknowledgement_refresh", "0002bf7f"), ("acknowledgement_failure", "0002bfff"),
+                        ("query", "000174"), ("deregistration", "000131")):
+        op(f"ars.from_bytes_{aname}", "parse")(lambda ahex=ahex: ((lambda: (HEX(ahex),)), (lambda d: _outcome(lambda: AutomaticRegistrationService.from_bytes(d)))))
     op("ars.roundtrip", "parse")(lambda: ((lambda: (HEX("0010F5000231310939393939393939393900"),)), (lambda d: AutomaticRegistrationService.from_bytes(d).as_bytes())))
     op("lp.default_ctor_gps")(lambda: ((lambda: ()), (lambda: _lp_default(LocationProtocol))))
     # ---- results that must not depend on the process environment (time zone, hash seed, the date the library was imported) -------
